@@ -131,6 +131,7 @@ func GzipMembers(raw []byte) ([]Stream, error) {
 }
 
 var zstdDec, _ = zstd.NewReader(nil, zstd.WithDecoderConcurrency(1))
+var zstdStream *zstd.Decoder
 
 // ZstdFrames splits a byte string into zstd frames (RFC 8878 section 3.1) by walking
 // frame and block headers; each data frame is then decoded on its own.
@@ -210,12 +211,18 @@ func ZstdFrames(raw []byte) ([]Stream, error) {
 // compress/gzip in multistream mode, or the klauspost zstd stream decoder.
 func DecompressAll(kind string, raw []byte) ([]byte, error) {
 	if kind == KindZstd {
-		d, err := zstd.NewReader(bytes.NewReader(raw), zstd.WithDecoderConcurrency(1))
-		if err != nil {
+		// one stream decoder reused across calls (a fresh decoder allocates its window every time)
+		if zstdStream == nil {
+			d, err := zstd.NewReader(nil, zstd.WithDecoderConcurrency(1), zstd.WithDecoderLowmem(true))
+			if err != nil {
+				return nil, err
+			}
+			zstdStream = d
+		}
+		if err := zstdStream.Reset(bytes.NewReader(raw)); err != nil {
 			return nil, err
 		}
-		defer d.Close()
-		return io.ReadAll(d)
+		return io.ReadAll(zstdStream)
 	}
 	zr, err := gzip.NewReader(bytes.NewReader(raw))
 	if err != nil {
